@@ -302,7 +302,8 @@ def cssLoop (s : Array Nat) : List (Nat × Rx.St) → Nat → Option CssMap → 
         match Rx.matchAt (s.extract 0 q) Gen.Pat.CSSCheckMixin__css_sep endp with
         | none => some ((match errors with | some l => l | none => []) ++ [CssErr.badContent endp])
         | some sp =>
-          if endp > 0 && (sp.group Gen.Pat.CSSCheckMixin__css_sep_g_semi).isNone then
+          -- only between declarations, not for trailing white space before the final `\Z` match
+          if endp > 0 && hasProp && (sp.group Gen.Pat.CSSCheckMixin__css_sep_g_semi).isNone then
             some ((match errors with | some l => l | none => []) ++ [CssErr.missingSemicolon endp])
           else errors
       else errors
